@@ -293,6 +293,14 @@ inline json reader_dump(const std::string& bytes) {
             blocks.push_back(b);
         }
         out["fin"] = "eof";
+        // read_block() after the end was reported: [eof flag, items of the returned block] of two further calls
+        json after = json::array();
+        for (int k = 0; k < 2; k++) {
+            bool e2 = false;
+            CdnsBlockRead blk = reader.read_block(e2);
+            after.push_back(json::array({e2, blk.get_item_count()}));
+        }
+        out["after"] = after;
     } catch (CdnsDecoderEnd& e) {
         out["fin"] = "end";
     } catch (std::exception& e) {
